@@ -160,6 +160,13 @@ func TestC03Sweep(t *testing.T) {
 			cases = append(cases, statCase{Test: "autocorr", M: d, Seq: gen.Seq{Family: "uniform", N: n, Seed: uint64(n + d)}})
 		}
 	}
+	// cumulative sums, both directions, beyond 2^22 bits (uniform and biased content: the maximum is reached in different places)
+	for i, n := range []int{4194305, 10000019, 12582915} {
+		for _, fwd := range []bool{true, false} {
+			cases = append(cases, statCase{Test: "cusum", Flag: fwd, Seq: gen.Seq{Family: "uniform", N: n, Seed: uint64(700 + i)}},
+				statCase{Test: "cusum", Flag: fwd, Seq: gen.Seq{Family: "prefixconst", N: n, A: 1, Seed: uint64(710 + i), Pos: []int{3000}}})
+		}
+	}
 	// byte entry points on samples of decreasing length (a long sample first, then ever shorter ones in the same process)
 	for _, n := range []int{1000000, 20000, 1000, 104, 20000, 128} {
 		cases = append(cases, statCase{Test: "binderivBytes", M: 7, Seq: gen.Seq{Family: "uniform", N: n, Seed: uint64(n + 1)}},
